@@ -1,0 +1,31 @@
+//go:build verif
+// +build verif
+
+// Machine-checked contracts for this package (checked by /verif/govc).
+// Comment-only: no executable code.
+
+package utils
+
+//@ import ctypes "github.com/ovrclk/akash/x/cert/types"
+//@ import sdk "github.com/cosmos/cosmos-sdk/types"
+//@ import x509 "crypto/x509"
+
+// the chain's answer to a certificate query (A-QUERY; the keeper side is verified under C17): every record returned for
+// filter (owner, serial, "valid") is a certificate that owner published under that serial number
+//@ spec onChain(owner: str, serial: str, pemCert: str): bool
+//@ extern ctypes.(QueryClient).Certificates(recv, ctx, in, opts)
+//@   ensures result1 == nil ==> result0 != nil && (forall j: int :: 0 <= j && j < len(result0.Certificates) ==>
+//@        onChain(in.Filter.Owner, in.Filter.Serial, result0.Certificates[j].Certificate.Cert))
+//@ extern ctypes.(Certificate).IsState(m, state)
+//@   pure
+//@   ensures result <==> m.State == state
+
+// C09: the gateway accepts a client certificate only if it carries a valid signature made with the key of a
+// certificate that the account named in its subject published on chain under the same serial number and that is
+// currently valid - a self-made certificate that merely copies the name and the serial number is rejected.
+//@ func NewServerTLSConfig$1
+//@   modifies ghost PoolHas
+//@   ensures [auth] result == nil && len(certificates) > 0 ==> len(certificates) == 1 &&
+//@        (exists oc: str, cn: str, serial: str :: validBech32(cn) && onChain(bech32(unbech32(cn)), serial, oc) && signedBy(certificates[0], derOfPEM(oc)))
+
+//@ property C09 := NewServerTLSConfig$1#*
